@@ -1,3 +1,143 @@
-import UvModel.Lemmas.FdLedgerLemmas
+import UvModel.FdOps
+/-! C15 property theorems (descriptor hygiene) over the catalogue semantics of `UvModel.FdOps` -/
 namespace UvModel.Props.C15
+open UvModel.FdLedger
+
+/-- an arbitrary program: operations of the catalogue, each with the syscall failures injected into it -/
+def runOps (s : St) (prog : List (Inj × Op)) : St := prog.foldl (fun s io => step s io.1 io.2) s
+
+/-- **cloexec_everywhere**: after any operation sequence with any injected failures, every descriptor
+    that libuv created and that is still open (in a loop/handle field or handed to the caller) has
+    FD_CLOEXEC. -/
+theorem cloexec_everywhere (s : St) (prog : List (Inj × Op)) :
+    ∀ e ∈ (runOps s prog).l.1.led, e.bylib = true → e.cx = true :=
+  (runOps s prog).l.2.cx
+
+/-- … and it had the flag from the moment it was created (atomic creation: no window for a fork) -/
+theorem cloexec_at_creation (s : St) (prog : List (Inj × Op)) :
+    ∀ e, Ev.create e ∈ (runOps s prog).l.1.evs → e.cx = true ∧ e.bylib = true :=
+  fun e he => (runOps s prog).l.2.ev _ he
+
+/-- **no_foreign_close**: every close(2) libuv performed was on a descriptor owned by libuv at that
+    moment (loop field, handle field — including descriptors whose ownership was transferred with
+    uv_*_open — or a local of the running operation), or was requested by the caller (uv_fs_close);
+    and it was never descriptor 0, 1 or 2. -/
+theorem no_foreign_close (s : St) (prog : List (Inj × Op)) :
+    ∀ e auth, Ev.close e auth ∈ (runOps s prog).l.1.evs →
+      e.stdio = false ∧ (e.owner.libuv = true ∨ auth = true) :=
+  fun e auth he => (runOps s prog).l.2.ev _ he
+
+/-- descriptors 0-2 wrapped in handles are never libuv's to close: they are held by the caller, by a
+    handle's io field (uv_*_open), or were orphaned by the caller re-opening the handle -/
+theorem stdio_only_wrapped (s : St) (prog : List (Inj × Op)) :
+    ∀ e ∈ (runOps s prog).l.1.led, e.stdio = true →
+      e.bylib = false ∧ (e.owner = .user ∨ (∃ h, e.owner = .handle h .io) ∨ e.owner = .leaked) :=
+  (runOps s prog).l.2.stdio
+
+/-- **owner_unique**: no descriptor is owned by two handles / fields (ids identify entries), and no
+    single-valued field holds two descriptors. -/
+theorem owner_unique (s : St) (prog : List (Inj × Op)) :
+    (∀ e1 ∈ (runOps s prog).l.1.led, ∀ e2 ∈ (runOps s prog).l.1.led, e1.id = e2.id → e1 = e2) ∧
+    (∀ e1 ∈ (runOps s prog).l.1.led, ∀ e2 ∈ (runOps s prog).l.1.led,
+        e1.owner = e2.owner → e1.owner.unique = true → e1.id = e2.id) :=
+  ⟨(runOps s prog).l.2.id.2, (runOps s prog).l.2.uniq⟩
+
+/-- closing a single-valued libuv field removes exactly the descriptor it holds -/
+theorem closeOwner_led (l : Ledger) (h : LInv l) (o : Owner) (hok : (Prim.closeOwner o false).ok = true)
+    (hu : o.unique = true) : (exec1 l (.closeOwner o false)).led = l.led.filter (fun e => decide (e.owner ≠ o)) := by
+  unfold exec1
+  rw [if_pos hok]
+  simp only [exec1raw]
+  split
+  · rename_i hf
+    symm
+    rw [List.filter_eq_self]
+    intro e he
+    have := List.find?_eq_none.mp hf e he
+    simpa using this
+  · rename_i em hf
+    obtain ⟨hem, ho⟩ := find?_owner hf
+    simp only [Bool.false_and, Bool.false_eq_true, if_false]
+    apply List.filter_congr
+    intro e he
+    by_cases hc : e.owner = o
+    · have : e.id = em.id := h.uniq e he em hem (hc.trans ho.symm) (hc ▸ hu)
+      simp [hc, this]
+    · have : e.id ≠ em.id := fun hid => hc ((h.id.2 e he em hem hid) ▸ ho)
+      simp [hc, this]
+
+def loopClosePrims : List Prim :=
+  [.closeOwner (.loop .sig0) false, .closeOwner (.loop .sig1) false, .closeOwner (.loop .ring) false,
+   .closeOwner (.loop .inotify) false, .closeOwner (.loop .async) false,
+   .closeOwner (.loop .emfile) false, .closeOwner (.loop .backend) false]
+
+theorem loopClose_led (l : Ledger) (h : LInv l) :
+    ∀ e ∈ (exec l loopClosePrims).led, e ∈ l.led ∧ ∀ f, e.owner ≠ .loop f := by
+  intro e he
+  simp only [exec, loopClosePrims, List.foldl] at he
+  have h1 := linv_exec1 l (.closeOwner (.loop .sig0) false) h
+  have h2 := linv_exec1 _ (.closeOwner (.loop .sig1) false) h1
+  have h3 := linv_exec1 _ (.closeOwner (.loop .ring) false) h2
+  have h4 := linv_exec1 _ (.closeOwner (.loop .inotify) false) h3
+  have h5 := linv_exec1 _ (.closeOwner (.loop .async) false) h4
+  have h6 := linv_exec1 _ (.closeOwner (.loop .emfile) false) h5
+  rw [closeOwner_led _ h6 _ rfl rfl, closeOwner_led _ h5 _ rfl rfl, closeOwner_led _ h4 _ rfl rfl,
+      closeOwner_led _ h3 _ rfl rfl, closeOwner_led _ h2 _ rfl rfl, closeOwner_led _ h1 _ rfl rfl,
+      closeOwner_led _ h _ rfl rfl] at he
+  simp only [List.mem_filter, decide_eq_true_eq] at he
+  refine ⟨he.1.1.1.1.1.1.1, ?_⟩
+  intro f
+  cases f <;> simp_all
+
+/-- the full leak-freedom claim of the property (NOT proved in full, see `no_leak_partial`) -/
+def no_leak_statement : Prop :=
+  ∀ (prog : List (Inj × Op)) (inj : Inj),
+    let s := runOps {} prog
+    s.loopOk = true → (∀ h ∈ s.hs, h.st = .closed ∨ h.st = .dead) →
+    ∀ e ∈ (step s inj .loopClose).l.1.led, e.owner = .user ∨ ∃ i, e.owner = .glob i
+
+/-- **no_leak (partial)**: a successful uv_loop_close releases every loop-owned descriptor, on a state
+    whose ledger is clean (every libuv-owned descriptor is held by a loop field, by the signal lock
+    pipe, or by the caller — i.e. all handles have been closed and no operation left an orphan).
+    What is missing for `no_leak_statement`: that every operation of the catalogue preserves
+    "no `temp`/`leaked` owner and handle-owned descriptors only on live handles"; the driver evaluates
+    exactly that predicate after every op of every generated program (`own … :-` entries), and the
+    harness's LEAK monitor checks it on the real descriptor table. -/
+theorem no_leak_partial (s : St) (inj : Inj) (hok : s.loopOk = true)
+    (hh : ∀ h ∈ s.hs, h.st = .closed ∨ h.st = .dead)
+    (hclean : ∀ e ∈ s.l.1.led, e.owner = .user ∨ (∃ i, e.owner = .glob i) ∨ ∃ f, e.owner = .loop f) :
+    ∀ e ∈ (step s inj .loopClose).l.1.led, e.owner = .user ∨ ∃ i, e.owner = .glob i := by
+  have hany : s.hs.any (fun h => h.st = .live || h.st = .closing) = false := by
+    rw [List.any_eq_false]
+    intro h hm
+    rcases hh h hm with h1 | h1 <;> simp [h1]
+  intro e he
+  have : (step s inj .loopClose).l.1.led = (exec s.l.1 loopClosePrims).led := by
+    simp [step, hok, hany, ret, St.say, St.run, exec, loopClosePrims, exec1, exec1raw, Prim.ok]
+  rw [this] at he
+  obtain ⟨hm, hl⟩ := loopClose_led s.l.1 s.l.2 e he
+  rcases hclean e hm with h1 | h1 | ⟨f, h1⟩
+  · exact Or.inl h1
+  · exact Or.inr h1
+  · exact absurd h1 (hl f)
+
+
+/-! ### non-vacuity: concrete programs reach non-trivial states and exercise the events the theorems speak about -/
+
+/-- loop init; tcp handle with an eager socket; socket() made to fail for a udp handle; a socketpair whose
+    first end sits on descriptor 0 wrapped in a pipe handle and closed again; a failed pipe bind; uv_pipe -/
+def demo : List (Inj × Op) :=
+  [([], .loopInit), ([], .tcpInit true), ([("socket", 1, 24)], .udpInit true), ([], .ufd "sockpair" (some 0)),
+   ([], .pipeInit false), ([], .open_ 2 9), ([], .close 2), ([], .pipeInit false), ([], .bind 3 "bad" 0), ([], .uvPipe),
+   ([], .close 0), ([], .close 3), ([], .run)]
+
+example : ((runOps {} demo).l.1.led.map (·.id)) = [0, 1, 2, 3, 4, 5, 6, 7, 9, 10, 12, 13] := by decide
+example : ((runOps {} demo).l.1.evs.filter (fun ev => match ev with | .close _ _ => true | _ => false)).length = 2 := by decide
+example : ((runOps {} demo).l.1.led.filter (·.stdio)).map (·.owner) = [.user] := by decide
+-- the state after `demo` satisfies the hypotheses of `no_leak_partial`
+example : (runOps {} demo).loopOk = true ∧ (runOps {} demo).hs.all (fun h => h.st = .closed || h.st = .dead) = true ∧
+    (runOps {} demo).l.1.led.all (fun e => match e.owner with | .user => true | .glob _ => true | .loop _ => true | _ => false) = true := by
+  decide
+example : ((step (runOps {} demo) [] .loopClose).l.1.led.map (·.owner)) = [.glob 0, .glob 1, .user, .user, .user, .user] := by decide
+
 end UvModel.Props.C15
